@@ -919,3 +919,23 @@ schema {
         assert_eq!(sdl, expected)
     }
 }
+
+#[cfg(feature = "verif-hooks")]
+#[doc(hidden)]
+#[allow(missing_docs)]
+pub mod verif_hooks {
+    use super::SDLExportOptions;
+
+    pub fn escape_string(s: &str) -> String {
+        super::escape_string(s)
+    }
+
+    pub fn write_description(
+        sdl: &mut String,
+        options: &SDLExportOptions,
+        level: usize,
+        description: &str,
+    ) {
+        super::write_description(sdl, options, level, description)
+    }
+}
